@@ -89,6 +89,21 @@ fn es<T>(r: Result<T, sonic_rs::Error>) -> Result<T, String> {
     r.map_err(|e| e.to_string())
 }
 
+/// The decoded text of a lazy value, read three ways: through a copy taken before the value was ever read,
+/// through the value itself, and through a copy taken afterwards (a copy shares or re-creates the cached
+/// decoding). All three must agree; the caller compares the result with the reference decoding.
+fn lazy_text(l: &LazyValue, route: &str, doc: &[u8]) -> Result<Option<String>, Fail> {
+    let before = l.clone();
+    let a = before.as_str().map(|x| x.to_string());
+    let b = l.as_str().map(|x| x.to_string());
+    let after = l.clone();
+    let c = after.as_str().map(|x| x.to_string());
+    drop(before);
+    let d = l.as_str().map(|x| x.to_string());
+    ensure!(a == b && b == c && c == d, format!("C09/lazy-copies-disagree/{route}"), "{route} on {:?}: as_str of a copy taken before the first read = {:?}, of the value = {:?}, of a copy taken afterwards = {:?}, of the value again = {:?}", show_bytes(doc, 300), a, b, c, d);
+    Ok(b)
+}
+
 pub fn oracle(case: &[u8], obs: &mut Obs) -> Result<(), Fail> {
     if case.len() < 3 {
         return Ok(());
@@ -180,7 +195,7 @@ pub fn oracle(case: &[u8], obs: &mut Obs) -> Result<(), Fail> {
                     check_text("from_str::<Value>", es(sonic_rs::from_str::<Value>(s)).map(|v| v.as_str().map(|x| x.to_string())), &strict, &doc)?;
                 }
                 if let Ok(l) = &lazy {
-                    let got = l.as_str().map(|x| x.to_string());
+                    let got = lazy_text(l, "LazyValue", &doc)?;
                     match (&strict.lit, got) {
                         (Some(w), Some(t)) => ensure!(t == w.text, sig("wrong-text", "LazyValue::as_str"), "LazyValue::as_str on {:?} = {:?}", show_bytes(&doc, 300), t),
                         (Some(_), None) => fail!(sig("none-for-valid", "LazyValue::as_str"), "LazyValue::as_str is None for {:?}", show_bytes(&doc, 300)),
@@ -207,7 +222,7 @@ pub fn oracle(case: &[u8], obs: &mut Obs) -> Result<(), Fail> {
                 // lazy routes: element 0 via get and via the array iterator
                 let g = sonic_rs::get(&doc[..], &[0usize]);
                 if let Ok(l) = &g {
-                    let got = l.as_str().map(|x| x.to_string());
+                    let got = lazy_text(l, "get[0]", &doc)?;
                     match (&strict.lit, got) {
                         (Some(w), Some(t)) => ensure!(t == w.text, sig("wrong-text", "get[0].as_str"), "get(..,[0]).as_str on {:?} = {:?}", show_bytes(&doc, 300), t),
                         (Some(_), None) => fail!(sig("none-for-valid", "get[0].as_str"), "get(..,[0]).as_str is None for {:?}", show_bytes(&doc, 300)),
@@ -228,7 +243,7 @@ pub fn oracle(case: &[u8], obs: &mut Obs) -> Result<(), Fail> {
                 let mut it = sonic_rs::to_array_iter(&doc[..]);
                 match it.next() {
                     Some(Ok(l)) => {
-                        let got = l.as_str().map(|x| x.to_string());
+                        let got = lazy_text(&l, "to_array_iter[0]", &doc)?;
                         if let Some(w) = &strict.lit {
                             ensure!(got.as_deref() == Some(w.text.as_str()), sig("wrong-text", "to_array_iter[0].as_str"), "to_array_iter first item as_str on {:?} = {:?}", show_bytes(&doc, 300), got);
                         } else if let (Some(t), Some(tg)) = (&got, &target) {
